@@ -34,6 +34,14 @@ def build_list(rng, acc, n, focus=None):
     g.focus = focus
     specs = []
     base = g.op_list(max(1, n // 3))
+    if focus is None and rng.integers(0, 4) == 0:
+        # single-row outputs with wide, deep blocks and kernels of height 1..5: the accumulator sizing rule for one-row operations decides AB_START here
+        kind = str(rng.choice(["conv", "depthwise", "pool"]))
+        try:
+            base.insert(int(rng.integers(0, len(base) + 1)), g.conv_like(kind, force=dict(oh=1, ow=int(rng.choice([24, 32, 48, 64, 100])), oc=int(rng.choice([16, 32, 64, 128])),
+                                                                                     kh=int(rng.choice([1, 2, 3, 5])), kw=int(rng.choice([1, 3])), sy=int(rng.choice([1, 1, 2])))))
+        except (AssertionError, ValueError):
+            pass
     for s in base:
         specs.append(s)
         # histories that maximise elision: variants differing in one field, exact repeats, and A,B,A returns
